@@ -49,7 +49,8 @@ func TestMain(m *testing.M) {
 		"each query comes from the C08 generator (attribute subsets / aliases incl. time, iface and raw, one interface / list / any, " +
 		"condition from the whole grammar with address and network leaves of both families — two thirds of the leaf values are re-drawn from the hosts, ports and protocols of the script's conversations —, optional direction filter, " +
 		"lower bound from {block ts, ±1, ±300, day bounds, outside}, low-memory on/off) with Live = true and no upper bound; the twin run executes the same script without the queries; " +
-		"non-trivial = at some compared live query the selected interfaces hold in-memory flows of both IP families and the condition accepts some and rejects some of them; distinct by script text + query texts")
+		"a third run (twin-only) draws the script with non-decisive conversations as well (other protocols both ways, identical ports, both ports common, unknown ICMP types), places queries also directly after a write-out, and compares only what the run with and the run without live queries write and keep in memory; " +
+		"non-trivial = at some compared live query the selected interfaces hold in-memory flows of both IP families and the condition accepts some and rejects some of them (twin-only: a non-decisive conversation, a live query and a query that directly follows a write-out); distinct by script text + query texts")
 	evid.Assume("the flows in memory at a query are the successfully parsed packets delivered since the last write-out, keyed by the stored key computed with the exported ParsePacketV4/V6 and ClassifyPacketDirectionV4/V6 (verified by C19/C22; that the capture holds exactly these is C20's subject); only decisive conversations are generated",
 		"the stored part of the expectation is computed from the blocks read back from the database files after the run (blocks with timestamp <= instant of the query; blocks are immutable once written — C01/C03), not from the capture model: a capture defect does not show up as a query defect",
 		"a live query must carry Last = types.MaxTime (query.Args.SetDefaults; prepLiveArg rejects anything else); in-memory flows are reported whatever the lower bound is",
@@ -221,8 +222,9 @@ func drawLocalPacket(rt *rapid.T, l string, c *capharness.Conv, id int) *capharn
 // packets (replays of drawn packets in other intervals / on other interfaces, packets of the added
 // conversations) and turns the status / flow-map events of the script plus extra drawn positions into live
 // engine queries.
-func drawScript(rt *rapid.T, allAttrs bool) *script {
-	base := capharness.DrawScript(rt, capharness.Options{})
+func drawScript(rt *rapid.T, allAttrs bool, nonDecisive ...bool) *script {
+	amb := len(nonDecisive) > 0 && nonDecisive[0]
+	base := capharness.DrawScript(rt, capharness.Options{Ambiguous: amb})
 	s := &script{Script: base, Queries: map[int]*qgen.Query{}}
 	nIf := len(base.Ifaces)
 	// conversations of the check: the family that is missing, or a drawn one
@@ -301,6 +303,10 @@ func drawScript(rt *rapid.T, allAttrs bool) *script {
 			ql := fmt.Sprintf("%sq%d.", l, k)
 			// more often late in the interval, when flows are in memory
 			pos := max(rapid.IntRange(0, len(cur)).Draw(rt, ql+"pos"), rapid.IntRange(0, len(cur)).Draw(rt, ql+"pos2"))
+			if amb && rapid.Bool().Draw(rt, ql+"early") {
+				// twin-only mode: also early in the interval, when the flows of the previous interval are idle
+				pos = rapid.IntRange(0, min(2, len(cur))).Draw(rt, ql+"pos3")
+			}
 			insert(pos, &capharness.Action{Kind: capharness.ActQuery})
 		}
 		out = append(out, cur...)
@@ -978,6 +984,67 @@ func run(t *testing.T, rt *rapid.T, excluding bool) {
 	if a.CloseTs != tw.CloseTs {
 		rt.Fatalf("harness: the two runs end at different instants (%d / %d)", a.CloseTs, tw.CloseTs)
 	}
+}
+
+// TestC29TwinNonDecisive: clause (2) alone on scripts that also contain conversations whose stored orientation
+// is decided by the first packet seen (other protocols both ways, identical ports, both ports common, unknown ICMP
+// types): what is written with live queries in between must equal what is written without them. The results of
+// the queries themselves are not compared here (the in-memory model of clause (1) needs decisive conversations).
+func TestC29TwinNonDecisive(t *testing.T) {
+	rapid.Check(t, func(rt *rapid.T) {
+		s := drawScript(rt, false, true)
+		canon := s.canon()
+		nAmb, early := 0, 0
+		for _, c := range s.Convs {
+			if c.Ambiguous {
+				nAmb++
+			}
+		}
+		// a query that directly follows a write-out (no packet in between) meets only idle flows
+		for i, a := range s.Actions {
+			if a.Kind == capharness.ActQuery && i > 0 {
+				for j := i - 1; j >= 0; j-- {
+					if s.Actions[j].Kind == capharness.ActRotate {
+						early++
+						break
+					}
+					if s.Actions[j].Kind == capharness.ActPkt {
+						break
+					}
+				}
+			}
+		}
+		nt := nAmb > 0 && early > 0 && len(s.Queries) > 0
+		cl := []string{"twin-only"}
+		if nAmb > 0 {
+			cl = append(cl, "twin-only:non-decisive-conversation")
+		}
+		if early > 0 {
+			cl = append(cl, "twin-only:query-directly-after-write-out")
+		}
+		if nt {
+			cl = append(cl, "twin-only:nontrivial")
+		}
+		evid.Case("twin|"+canon, nt, cl...)
+		if evid.WantSample(nt) {
+			c := canon
+			if len(c) > 2000 {
+				c = c[:2000] + "…"
+			}
+			evid.Sample(map[string]any{"kind": "twin comparison with non-decisive conversations", "script": strings.Split(c, "\n"), "queries": len(s.Queries), "non_decisive_conversations": nAmb}, nt)
+		}
+		a := runScript(t, s, true)
+		if f := runFailure(a, ""); f != nil {
+			rt.Fatalf("%s", evid.Sig(f.sig, "%s\nscript:\n%s", f.text, canon))
+		}
+		tw := runScript(t, s, false)
+		if f := runFailure(tw, "twin-"); f != nil {
+			rt.Fatalf("%s", evid.Sig(f.sig, "%s\nscript:\n%s", f.text, canon))
+		}
+		if d := capharness.DiffRuns(s.Ifaces, toCap(a), toCap(tw), "live-query", "twin"); d != nil {
+			rt.Fatalf("%s", evid.Sig("C29:changed-"+d.Clause, "the run with live queries and the run without differ: %s\nerror log (run with live queries): %s\nscript:\n%s", d.Text, strings.Join(a.ErrorLogs, " | "), canon))
+		}
+	})
 }
 
 // TestC29Live searches the whole domain (queries with attribute subsets included).
